@@ -15,7 +15,7 @@ const verifEnabled = true
 var VerifTick func(r *Runtime)
 
 // VerifForceStackRealloc, when non-nil and returning true, makes the value stack move to a freshly
-// allocated backing array on every growth (the old array is poisoned with nils).
+// allocated backing array on every growth (writes through a stale alias of the old array are lost).
 var VerifForceStackRealloc func() bool
 
 func verifTick(vm *vm) {
@@ -36,10 +36,8 @@ func verifForceRealloc(s *valueStack, idx int) bool {
 	}
 	n := make([]Value, idx, newCap)
 	copy(n, old)
-	old = old[:cap(old)]
-	for i := range old {
-		old[i] = nil
-	}
+	// The old array is left as it is: a native function may legitimately keep reading its arguments
+	// (FunctionCall.Arguments aliases the stack as it was when the call was made) after a callback has grown the stack.
 	*s = n
 	return true
 }
